@@ -431,6 +431,178 @@ class ColTr(Tr):
         return f"Definition {coqname} {ps} : {rty} :=\n{textwrap.indent(body, '  ')}.\n"
 
 
+class EndTry(ast.stmt):
+    """marks the end of a try body inside the flattened statement list; restores the outer handler"""
+    _fields = ()
+
+    def __init__(self, outer):
+        super().__init__()
+        self.outer = outer
+
+
+class StrTr(ColTr):
+    """String-level translation: a Python str is a list of code points (Base/ColourStr.v).
+    startswith / len / slicing / + / f-strings / format / "".join over a tuple / int(s, base) are
+    translated; int() is partial (ValueError): inside `try: ... except ValueError: return None` a failing
+    int() yields the handler's value, elsewhere `Err ValueError`."""
+
+    def abs_lookup(s, e, env):
+        src = ast.unparse(e)
+        return "v" if src == "self.__value" else None
+
+    @staticmethod
+    def lit(t):
+        return "[" + "; ".join(str(ord(c)) for c in t) + "]" if t else "(@nil Z)"
+
+    def is_str(s, e, env):
+        if isinstance(e, ast.Constant):
+            return isinstance(e.value, str)
+        if isinstance(e, ast.JoinedStr):
+            return True
+        if isinstance(e, ast.Name):
+            return bool(env.get("$str:" + e.id, False))
+        if isinstance(e, ast.Subscript):
+            return s.is_str(e.value, env)
+        if isinstance(e, ast.BinOp) and isinstance(e.op, ast.Add):
+            return s.is_str(e.left, env) or s.is_str(e.right, env)
+        if isinstance(e, ast.Call):
+            if isinstance(e.func, ast.Attribute) and e.func.attr == "join":
+                return True
+            return ast.unparse(e.func) == "format"
+        return False
+
+    def const_index(s, e):
+        if e is None:
+            return None
+        if isinstance(e, ast.Constant) and isinstance(e.value, int) and e.value >= 0:
+            return e.value
+        raise Unsupported(f"non-constant or negative string index {ast.unparse(e)}")
+
+    def sexpr(s, e, env):
+        if isinstance(e, ast.Constant) and isinstance(e.value, str):
+            return s.lit(e.value)
+        if isinstance(e, ast.Name):
+            return env[e.id]
+        if isinstance(e, ast.Subscript):
+            base = s.sexpr(e.value, env)
+            if isinstance(e.slice, ast.Slice):
+                if e.slice.step is not None:
+                    raise Unsupported("string slice with a step")
+                lo, hi = s.const_index(e.slice.lower) or 0, s.const_index(e.slice.upper)
+                if hi is None:
+                    return f"(str_from {base} {lo})"
+                if hi < lo:
+                    raise Unsupported("string slice with upper < lower")
+                return f"(str_slice {base} {lo} {hi})"
+            return f"(str_at {base} {s.const_index(e.slice)})"
+        if isinstance(e, ast.BinOp) and isinstance(e.op, ast.Add):
+            return f"({s.sexpr(e.left, env)} ++ {s.sexpr(e.right, env)})"
+        if isinstance(e, ast.JoinedStr):
+            segs = []
+            for part in e.values:
+                if isinstance(part, ast.Constant):
+                    segs.append(s.lit(part.value))
+                    continue
+                spec = ast.unparse(part.format_spec)[2:-1] if part.format_spec else ""
+                if part.conversion != -1:
+                    raise Unsupported("f-string conversion")
+                if spec == "" and s.is_str(part.value, env):
+                    segs.append(s.sexpr(part.value, env))
+                elif spec == "d":
+                    segs.append(f"(fmt_d {s.expr(part.value, env)})")
+                elif spec == "x":
+                    segs.append(f"(fmt_x {s.expr(part.value, env)})")
+                elif spec == "06x":
+                    segs.append(f"(fmt_x_pad 6 {s.expr(part.value, env)})")
+                else:
+                    raise Unsupported(f"format specification {spec!r}")
+            return "(" + " ++ ".join(segs) + ")" if segs else "(@nil Z)"
+        if isinstance(e, ast.Call):
+            f = ast.unparse(e.func)
+            if f == "format" and len(e.args) == 2 and isinstance(e.args[1], ast.Constant) and e.args[1].value in ("x", "d"):
+                return f"(fmt_{e.args[1].value} {s.expr(e.args[0], env)})"
+            if isinstance(e.func, ast.Attribute) and e.func.attr == "join":
+                if not (isinstance(e.func.value, ast.Constant) and e.func.value.value == "" and len(e.args) == 1
+                        and isinstance(e.args[0], ast.GeneratorExp)):
+                    raise Unsupported("join other than ''.join(generator)")
+                g = e.args[0]
+                if len(g.generators) != 1 or g.generators[0].ifs or not isinstance(g.generators[0].target, ast.Name) \
+                        or not isinstance(g.generators[0].iter, ast.Tuple):
+                    raise Unsupported("generator that is not `for x in (a, b, ...)`")
+                var = g.generators[0].target.id
+                segs = []
+                for el in g.generators[0].iter.elts:          # unrolled, in evaluation order
+                    env2 = dict(env)
+                    env2[var] = s.sexpr(el, env)
+                    env2["$str:" + var] = True
+                    segs.append(s.sexpr(g.elt, env2))
+                return "(" + " ++ ".join(segs) + ")" if segs else "(@nil Z)"
+        raise Unsupported(f"string expression {ast.unparse(e)}")
+
+    def expr(s, e, env):
+        if s.is_str(e, env):
+            return s.sexpr(e, env)
+        if isinstance(e, ast.Call) and ast.unparse(e.func) == "int" and len(e.args) == 2 and s.is_str(e.args[0], env):
+            b = e.args[1]
+            if not (isinstance(b, ast.Constant) and b.value in (10, 16)):
+                raise Unsupported("int() with a base other than 10 / 16")
+            tmp = s.newname("n")
+            s.pending.append((tmp, f"(py_int {b.value} {s.sexpr(e.args[0], env)})", env.get("$handler", "Err ValueError")))
+            return tmp
+        return super().expr(e, env)
+
+    def bexpr(s, e, env):
+        if isinstance(e, ast.Call) and isinstance(e.func, ast.Attribute) and e.func.attr == "startswith" \
+                and len(e.args) == 1 and isinstance(e.args[0], ast.Constant) and isinstance(e.args[0].value, str):
+            return f"(startswith {s.sexpr(e.func.value, env)} {s.lit(e.args[0].value)})"
+        return super().bexpr(e, env)
+
+    def flush(s, body):
+        pend, s.pending = s.pending, []
+        for ent in reversed(pend):
+            if len(ent) == 2:
+                body = f"bind {ent[1]} (fun {ent[0]} =>\n{body})"
+            else:
+                body = f"match {ent[1]} with\n| Some {ent[0]} =>\n{textwrap.indent(body, '  ')}\n| None => {ent[2]}\nend"
+        return body
+
+    def block(s, stmts, env, k=None):
+        if stmts:
+            st, rest = stmts[0], list(stmts[1:])
+            if isinstance(st, EndTry):
+                env2 = dict(env)
+                env2["$handler"] = st.outer
+                return s.block(rest, env2)
+            if isinstance(st, ast.Try):
+                if not (len(st.handlers) == 1 and ast.unparse(st.handlers[0].type) == "ValueError"
+                        and ast.unparse(st.handlers[0].body[0]) == "return None" and len(st.handlers[0].body) == 1
+                        and not st.orelse and not st.finalbody):
+                    raise Unsupported("try statement other than `except ValueError: return None`")
+                env2 = dict(env)
+                env2["$handler"] = "Ok None"
+                return s.block(list(st.body) + [EndTry(env.get("$handler", "Err ValueError"))] + rest, env2)
+            if isinstance(st, ast.Assign) and len(st.targets) == 1 and isinstance(st.targets[0], ast.Name) \
+                    and s.is_str(st.value, env):
+                val = s.sexpr(st.value, env)
+                nm = s.newname(st.targets[0].id)
+                env2 = dict(env)
+                env2[st.targets[0].id] = nm
+                env2["$str:" + st.targets[0].id] = True
+                return s.after(f"let {nm} := {val} in\n", rest, env2)
+        return super().block(stmts, env)
+
+    def function(s, fn, params, coqname, kind, checked=True):
+        s.kind, s.checked, s.pending, s.strdefs, s.optvars = kind, True, [], {}, set()
+        env = {p: c for p, c, _ in params}
+        for p, c, t in params:
+            if t == "str":
+                env["$str:" + p] = True
+        body = s.block(list(fn.body), env)
+        rty = {"opt": "result (option Z)", "desc": "result str", "optdesc": "result (option str)"}[kind]
+        ps = " ".join(f"({c} : {t})" for _, c, t in params)
+        return f"Definition {coqname} {ps} : {rty} :=\n{textwrap.indent(body, '  ')}.\n"
+
+
 def module_assign(tree, name):
     for n in tree.body:
         if isinstance(n, ast.Assign) and len(n.targets) == 1 and isinstance(n.targets[0], ast.Name) and n.targets[0].id == name:
@@ -514,4 +686,32 @@ def generate(repo):
         if not (len(m.body) == 1 and isinstance(m.body[0], ast.Return)):
             raise Unsupported(f"AttrSpec.{py} is not a one-line property")
         out.append(f"Definition attr_{py} (v : Z) : bool :=\n  {tr().bexpr(m.body[0].value, {})}.\n")
+    # ---------------- string level: the same functions on code-point lists, no abstraction ----------------
+    out.append("(* ===== string level (Base/ColourStr.v): names, describers and parsers on code-point lists ===== *)")
+    out.append("From Urwid Require Import ColourStr.\n")
+
+    def strconst(node):
+        if isinstance(node, ast.Constant) and isinstance(node.value, str):
+            return node.value
+        if isinstance(node, ast.Name):
+            return strconst(module_assign(tree, node.id))
+        raise Unsupported(f"not a string constant: {ast.unparse(node)}")
+
+    names = module_assign(tree, "_BASIC_COLORS")
+    if not isinstance(names, ast.List):
+        raise Unsupported("_BASIC_COLORS is not a list literal")
+    out.append("Definition BASIC_COLORS : list str := [" + "; ".join(StrTr.lit(strconst(x)) for x in names.elts) + "].")
+    out.append("Definition ATTRIBUTE_NAMES : list (str * setting) := ["
+               + "; ".join(f"({StrTr.lit(k.value)}, {SETTINGS[k.value]})" for k in d.keys) + "].\n")
+    sfuncs = {"int_scale": ("int_scale", "pure")}
+
+    def st():
+        return StrTr(consts, lists, sfuncs)
+    for py in ("_color_desc_true", "_color_desc_256", "_color_desc_88"):
+        out.append(st().function(find(tree, py), [("num", "num", "Z")], cname(py) + "_s", "desc"))
+        sfuncs[py] = (cname(py) + "_s", "result")
+    for py, kind in (("_parse_color_256", "opt"), ("_parse_color_88", "opt"), ("_true_to_256", "optdesc"),
+                     ("_parse_color_true", "opt")):
+        out.append(st().function(find(tree, py), [("desc", "d", "str")], cname(py) + "_s", kind))
+        sfuncs[py] = (cname(py) + "_s", "result-opt" if kind == "opt" else "result")
     return REL + " urwid/util.py", "\n".join(out)
